@@ -429,6 +429,27 @@ def _check(case, rec, src):
     except Exception as e:
         raise vio(f"render raised {type(e).__name__}: {e}", clause="render_exception", style=style)
 
+    # the public path: the same settings written as a format specifier must give the very same render
+    aspec = gen.alpha_spec(alpha)
+    keys = set(args)
+    if aspec is not None and keys <= {"method", "z_index", "mix", "compress"} and not native_anim:
+        ss = {"lines": "L", "whole": "W", "anim": "A"}[(args["method"]).lower()] if args.get("method") else ""
+        if "z_index" in args and style == "kitty":
+            ss += f"z{args['z_index']}"
+        if "mix" in args:
+            ss += f"m{int(args['mix'])}"
+        if "compress" in args:
+            ss += f"c{args['compress']}"
+        spec = "1.1" + aspec + ("+" + ss if ss else "")
+        if not ("z_index" in args and style != "kitty"):
+            try:
+                pub = format(image, spec)
+            except Exception as e:
+                raise vio(f"format(image, {spec!r}) raised {type(e).__name__}: {e}", clause="format_path", style=style)
+            if pub != out:
+                raise vio(f"format(image, {spec!r}) differs from the render with alpha={alpha!r} and {args}", clause="format_path", style=style)
+            rec.label("format_path")
+
     try:
         toks = proto.tokens(out)
         if style == "kitty":
